@@ -373,6 +373,15 @@ impl KademliaPeer {
         self.connection = connection;
     }
 
+    /// Every record of the address store: address and score.
+    pub fn verif_address_records(&self) -> Vec<(Multiaddr, i32)> {
+        self.address_store
+            .addresses
+            .values()
+            .map(|record| (record.address().clone(), record.verif_score()))
+            .collect()
+    }
+
     /// Overwrite the slot the way `KBucketEntry::insert` does, but keep the given key instead
     /// of recomputing it from the peer ID (what the crate's own tests do through `Vacant`).
     pub fn verif_overwrite(
